@@ -25,7 +25,7 @@ Two explorations on the real implementation:
     query points, given to mesh.Evaluate_dofsValues_at_coordinates in batches of 1, 2, 3, 5, all points of the element, all
     points of the mesh, and all points of the element with the `elements=[e]` hint; the nodal field holds every monomial of
     degree <= p at once (dof_n = number of monomials); the returned values must equal the monomials at the query points
-    (1e-9; 1e-7 where the library inverts the element map iteratively).  A returned row of exact zeros (the constant monomial
+    (1e-9; 1e-6 where the library inverts the element map iteratively).  A returned row of exact zeros (the constant monomial
     included) is reported as `not_located`, any other deviation as `wrong_value`, an exception as `evaluate_raises`.
 
 Violation keys: motion checks {check, dom, src, elemType, poly, dim, hist (prefix reached), mirrored (odd number of reflections),
@@ -47,6 +47,7 @@ LETTERS = ["T", "R90", "Rg", "S"]
 POLYS_QUICK = ["quad", "pent", "L"]
 BATCHES = [1, 2, 3, 5, "elem", "mesh", "elem_hint"]
 TOL_EVAL = 1e-9
+TOL_ITER = 1e-6
 
 
 # ------------------------------------------------------------------------------------------------
@@ -86,6 +87,9 @@ def _locate_meshes(tier):
         for shape, k, diag in variants:
             for mp in ["identity", "rot", "emb", "mirror"]:
                 out.append({"kind": "locate", "elemType": et, "k": k, "shape": shape, "diag": diag, "map": mp})
+        for poly in (["L"] if tier == "quick" else POLYS_QUICK):
+            for mp in ["identity", "emb", "mirror"]:
+                out.append({"kind": "locate", "elemType": et, "k": poly, "shape": "gmsh", "diag": 0, "map": mp})
     for et in Z.TYPES_3D:
         t = Z.topo(et)
         if t == "TETRA":
@@ -99,6 +103,9 @@ def _locate_meshes(tier):
         for shape, k in variants:
             for mp in ["identity", "rot", "mirror"]:
                 out.append({"kind": "locate", "elemType": et, "k": k, "shape": shape, "diag": 0, "map": mp})
+        if tier == "thorough":
+            for mp in ["identity", "rot"]:
+                out.append({"kind": "locate", "elemType": et, "k": "L", "shape": "gmsh", "diag": 0, "map": mp})
     return out
 
 
@@ -129,7 +136,7 @@ def describe(tier, seed):
                  "gmsh polygons quad/pent/L (h=0.5; extrusions h=0.6, height 0.8, 2 layers), distorted k=2 template (2D), unit box with boundary "
                  "reconstructed by MeshIO.Surface_reconstruction (3D), planar 2D gmsh meshes moved by the 3D alphabet (embedded); point location on "
                  "template meshes of 1-8 cells: affine, general straight-sided (displaced vertex), 3D frustum cells (non-affine, planar faces), "
-                 "3D warped cells (non-planar faces); lattice of 15/16/35/64/40 points per TRI/QUAD/TETRA/HEXA/PRISM plus the element's nodes; "
+                 "3D warped cells (non-planar faces), unstructured gmsh meshes of the L polygon (batch modes element/mesh only); lattice of 15/16/35/64/40 points per TRI/QUAD/TETRA/HEXA/PRISM plus the element's nodes; "
                  "batches of 1, 2, 3, 5, element, mesh, element with hint",
         "alphabet": {"letters": len(LETTERS), "element_types": len(Z.TYPES_2D) + len(Z.TYPES_3D), "domains": nd,
                      "batch_modes": len(BATCHES), "placements": 4, "cell_shapes": 4},
@@ -143,7 +150,8 @@ def describe(tier, seed):
             "boundary segments of a planar mesh lying out of the xy-plane: Get_normals_e_pg is cross(e_z, t) by construction and not an in-plane "
             "normal; not demanded (only the surface elements' own normals are checked there)",
             "tolerances: 1e-11 coordinates, 1e-10 measure/centroid/closure/flux relative to the size of the domain; evaluated values 1e-9 where the "
-            "library inverts the element map directly, 1e-7 on non-affine cells where it iterates with scipy least_squares (default tolerances 1e-8)",
+            "library inverts the element map directly, 1e-6 on non-affine cells where it iterates with scipy least_squares (default tolerances: "
+            "stops at |J^T r| < 1e-8, i.e. a position error up to 1e-8/|J|^2 ~ 5e-7 for cells of size >= 0.3); the defects reported by this check are errors of 1e-2 .. 4e-1",
         ],
         "explanation": "bounded exhaustive exploration on the real implementation; reference = plain numpy rigid motion of the exact polygon data, "
                        "outward normals from vertices and adjacency, monomials evaluated at the query points",
@@ -530,7 +538,7 @@ def _placement(name, d):
 def _degree(et, shape):
     g = Z.proto(et)
     p = int(g.order)
-    if shape != "affine" and Z.topo(et) in ("QUAD", "HEXA", "PRISM"):
+    if shape != "affine" and Z.topo(et) in ("QUAD", "HEXA") or shape == "frustum":
         return 2 if et in ("QUAD9", "HEXA27", "PRISM18") else 1
     return p
 
@@ -556,6 +564,9 @@ def _locate_mesh(case):
     et, k, shape = case["elemType"], case["k"], case["shape"]
     d = Z.dim_of(et)
     kk = tuple(k) if isinstance(k, list) else k
+    if shape == "gmsh":  # unstructured mesh of a polygon (k = polygon name) / of its extrusion, as plain arrays
+        mesh = Z.gmsh_2d(et, k, h=0.5)[0] if d == 2 else Z.gmsh_3d(et, k, h=0.6, height=0.8, layers=2)[0]
+        return Z.zoo_from_mesh(mesh, {"dim": d}, name=f"gmsh[{et},{k}]")
     if d == 2:
         return Z.template_2d(et, k=kk, distort=(shape == "general"), diag=case.get("diag", 0))
     if shape == "frustum":
@@ -575,8 +586,10 @@ def _run_locate(case):
     key0 = dict(elemType=et, dim=d, k=str(k), shape=shape, map=mp)
     # the library solves the inverse map of non-affine cells iteratively (scipy least_squares, default tolerances 1e-8):
     # "the solver's own tolerance x 10" there, 1e-9 where the map is inverted directly
-    iterative = shape != "affine" and Z.topo(et) in ("QUAD", "HEXA", "PRISM")
-    tol = 1e-7 if iterative else TOL_EVAL
+    # (its stopping rule |J^T r| < 1e-8 leaves a position error of 1e-8 / |J|^2, |J| ~ half the cell size >= 0.15 here: 5e-7)
+    iterative = (shape != "affine" and Z.topo(et) in ("QUAD", "HEXA")) or shape == "frustum"
+    tol = TOL_ITER if iterative else TOL_EVAL
+    modes = ("elem", "mesh") if shape == "gmsh" else (1, 2, 3, 5, "elem", "elem_hint", "mesh")
     # geometry must be exactly (multi)linear in the vertices (assumption of the reference map)
     xi, cls = _ref_lattice(et)
     nv = _nvert(et)
@@ -640,11 +653,13 @@ def _run_locate(case):
             vals_fp.append(np.round(got, 6))
 
     for e, P in enumerate(pts_e):
-        for bs in (1, 2, 3, 5):
+        for bs in [m for m in modes if isinstance(m, int)]:
             for i0 in range(0, len(P), bs):
                 query(P[i0:i0 + bs], cls[i0:i0 + bs], bs, None, e)
-        query(P, cls, "elem", None, e)
-        query(P, cls, "elem_hint", np.array([e]), e)
+        if "elem" in modes:
+            query(P, cls, "elem", None, e)
+        if "elem_hint" in modes:
+            query(P, cls, "elem_hint", np.array([e]), e)
     query(np.vstack(pts_e), cls * len(pts_e), "mesh", None, -1)
 
     out = []
